@@ -306,6 +306,12 @@ def gen(case, path, ident):
     L.append("      for (auto & q : QUERIES) { auto r = v.at(mk(q.x)); std::vector<double> g; for (std::size_t k = 0; k < q.want.size(); ++k) g.push_back((double)r[k]);")
     L.append("        vs::check(g == q.want, \"c13/view-after-owner-moved-and-variable-reused\", \"\\\"x\\\":\" + vs::vec(q.x) + \",\\\"got\\\":\" + vs::vec(g) + \",\\\"want\\\":\" + vs::vec(q.want)); }")
     L.append("      check_values(b, \"c13/move-constructed-with-live-view\"); }")
+    # the view copied BYTEWISE into raw storage, the way it reaches a device kernel; the original view is destroyed first
+    L.append("    { alignas(typename F::view_t) unsigned char raw[sizeof(typename F::view_t)];")
+    L.append("      { typename F::view_t v(f); std::memcpy(raw, &v, sizeof v); }")
+    L.append("      const typename F::view_t & pv = *std::launder(reinterpret_cast<const typename F::view_t *>(raw));")
+    L.append("      for (auto & q : QUERIES) { auto r = pv.at(mk(q.x)); std::vector<double> g; for (std::size_t k = 0; k < q.want.size(); ++k) g.push_back((double)r[k]);")
+    L.append("        vs::check(g == q.want, \"c13/view-copied-bytewise\", \"\\\"x\\\":\" + vs::vec(q.x) + \",\\\"got\\\":\" + vs::vec(g) + \",\\\"want\\\":\" + vs::vec(q.want)); } }")
     # ---------------- C13: the rest of the API, executed
     L.append("    { F d; (void)d; }                                            // default construction")
     L.append("    { F c1(f); check_values(c1, \"c13/copy-constructed\"); F c2(std::move(c1)); check_values(c2, \"c13/move-constructed\");")
